@@ -3,7 +3,7 @@ from checklib import cbytes, cbool, clist, cpair, cN, copt
 
 ID = "C20"
 HARNESS = "c20"
-N_CASES = {"quick": 420, "thorough": 6000}
+N_CASES = {"quick": 360, "thorough": 6000}
 N_SEARCH = {"quick": 1, "thorough": 2}
 SHARD = 60
 HAS_MODEL_OUT = True
